@@ -1,13 +1,132 @@
 (* Property C09 -- theorems only.  Each is closed by `exact <lemma>` and followed by Print Assumptions.
-   Gen_*.v are regenerated from /repo's headers on every run. *)
-From Coq Require Import ZArith List.
+   Gen_UIntMath / Gen_MemPoolConst / Gen_MemPool are regenerated from /repo's headers by cxx2coq on every run;
+   PoolLayout (rest of pvNewBuffer / pvNewBlock1, pvCheckParams), PoolLinks (buffer list surgery) and PoolModel are
+   hand models that are run against the real code on every run. *)
+From Coq Require Import ZArith List Bool.
 From MomoCommon Require Import GenPrelude.
-From C09 Require Gen_UIntMath Gen_MemPoolConst Gen_MemPool PoolLayout PoolLinks PoolArith.
+From C09 Require Gen_UIntMath Gen_MemPoolConst Gen_MemPool PoolLayout PoolLinks PoolArith PoolLinksProofs PoolModel.
 Import ListNotations.
 Local Open Scope Z_scope.
 
-(* UIntMath::Ceil(v, m) is the least multiple of m that is >= v whenever v + m does not overflow *)
+(* UIntMath::Ceil(v, m) is the least multiple of m that is >= v whenever v + m does not overflow. *)
 Theorem C09_ceil_spec : forall v m, 0 <= v -> 0 < m -> v + m < 2 ^ 64 ->
   exists k, Gen_UIntMath.Ceil v m = m * k /\ v <= m * k < v + m.
 Proof. exact PoolArith.Ceil_spec. Qed.
 Print Assumptions C09_ceil_spec.
+
+(* params_corrected_ok: for every requested block size, every alignment 1..1024 (power of two or not) and every
+   blockCount 1..127, the block size computed by MemPoolParams (CorrectBlockSize) passes all checks of pvCheckParams. *)
+Theorem C09_params_corrected_ok : forall bs al C,
+  1 <= C <= 127 -> 1 <= al <= 1024 -> 0 <= bs <= 2 ^ 48 ->
+  PoolLayout.check_params C (Gen_MemPoolConst.CorrectBlockSize bs al C) al = true.
+Proof. exact PoolArith.params_corrected_ok. Qed.
+Print Assumptions C09_params_corrected_ok.
+
+(* parameters accepted by pvCheckParams (blockCount >= 2) are `legal` as soon as the buffer size cannot overflow *)
+Theorem C09_check_params_legal : forall C B A,
+  PoolLayout.check_params C B A = true -> 2 <= C -> C * B + 4 * A + 32 < 2 ^ 63 -> PoolArith.legal C B A.
+Proof. exact PoolArith.check_params_legal. Qed.
+Print Assumptions C09_check_params_legal.
+
+(* newbuffer_layout + blockindex_roundtrip.  For ALL legal block sizes, alignments 1..1024, blockCount 2..127 and EVERY
+   address `begin` the memory manager may return (a multiple of min(16, lowest set bit of blockAlignment), the block not
+   wrapping around 2^64): pvNewBuffer's address computation does not assert (beginOffset < 65536), and the blockCount
+   blocks pvGetBlock(buffer, firstIndex + j) of the new buffer
+     - have indexes that fit int8_t, are aligned to blockAlignment, lie inside [begin, begin + pvGetBufferSize()),
+     - are pairwise disjoint, and disjoint from every byte the pool itself uses in the buffer (first-index byte,
+       BufferBytes, prev/next pointers, begin offset), which also lie inside the memory obtained,
+     - and pvGetBlockIndex recovers (firstIndex + j, buffer) from the address of every block; the first block is
+       begin + beginOffset, so pvDeleteBuffer recovers `begin`. *)
+Theorem C09_newbuffer_layout_and_blockindex_roundtrip : forall C B A begin,
+  PoolArith.legal C B A -> PoolArith.begin_ok A (Gen_MemPool.pvGetBufferSize C B A) begin ->
+  exists fb first buffer,
+    PoolLayout.new_buffer_layout C B A begin = Ok (fb, fb - begin, first, buffer) /\
+    fb - begin < 65536 /\ - (C - 1) <= first <= 0 /\
+    Gen_MemPool.pvGetBlock B A buffer first = fb /\
+    let size := Gen_MemPool.pvGetBufferSize C B A in
+    (forall j, 0 <= j < C ->
+       let b := PoolLayout.block_of B A buffer first j in
+       -128 <= first + j <= 127 /\
+       b mod A = 0 /\ begin <= b /\ b + B <= begin + size /\
+       (forall j', j < j' < C -> b + B <= PoolLayout.block_of B A buffer first j') /\
+       (forall p len, In (p, len) (PoolLayout.meta_ranges C B A buffer first) -> p + len <= b \/ b + B <= p) /\
+       Gen_MemPool.pvGetBlockIndex C B A b = Ok (first + j, buffer)) /\
+    (forall p len, In (p, len) (PoolLayout.meta_ranges C B A buffer first) -> begin <= p /\ p + len <= begin + size).
+Proof. exact PoolArith.newbuffer_layout_thm. Qed.
+Print Assumptions C09_newbuffer_layout_and_blockindex_roundtrip.
+
+(* non-vacuity: the default parameters of a 24-byte block pool are legal *)
+Theorem C09_legal_inhabited : PoolArith.legal 32 24 8.
+Proof. exact PoolArith.legal_example. Qed.
+Print Assumptions C09_legal_inhabited.
+
+(* block1_layout (blockCount = 1, alignment above what the manager guarantees): pvNewBlock1 does not assert, the block
+   is aligned, the block and its 2-byte offset field lie inside the pvGetBufferSize1() bytes obtained, and pvDeleteBlock1
+   recovers the manager's address from the stored offset - for every alignment 1..1024 and every manager address. *)
+Theorem C09_block1_layout : forall B A buffer,
+  1 <= A <= 1024 -> 0 < B < 2 ^ 62 -> PoolArith.begin_ok A (Gen_MemPool.pvGetBufferSize1 B A) buffer -> buffer + A < 2 ^ 64 ->
+  exists block,
+    PoolLayout.new_block1_layout B A buffer = Ok (block, block + B, block - buffer) /\
+    block mod A = 0 /\ buffer <= block /\
+    block + B + PoolLayout.offset_width <= buffer + Gen_MemPool.pvGetBufferSize1 B A /\
+    block - buffer < 65536 /\
+    (forall ld, ld (block + B) = block - buffer -> Gen_MemPool.pvDeleteBlock1 ld B A block = (block - buffer, buffer)).
+Proof. exact PoolArith.block1_layout_thm. Qed.
+Print Assumptions C09_block1_layout.
+
+(* the one-byte offset pvNewBlock1 used before fix bf4257f fails its assertion for legal parameters (alignment 512,
+   manager address 16): the theorem above is not vacuous and distinguishes the two versions. *)
+Theorem C09_block1_onebyte_refuted :
+  exists B A buffer, 1 <= A <= 1024 /\ 0 < B /\ 0 < buffer /\ buffer mod (PoolArith.gran A) = 0 /\
+    PoolArith.pvNewBlock1_onebyte B A buffer = Stuck.
+Proof. exact PoolArith.block1_onebyte_refuted. Qed.
+Print Assumptions C09_block1_onebyte_refuted.
+
+(* buffer list surgery (hand L1 model PoolLinks, corresponded with the real code): pointwise effect of one iteration of
+   MergeFrom's loop as coded after fix 7f37c9f, for every heap: the moved buffer b ends up between the former predecessor
+   of head1 and head1, and its former neighbours (prev b, head2) are linked to each other. *)
+Theorem C09_merge_step_prev : forall h head1 head2 b x, head1 <> head2 ->
+  PoolLinks.hprev (PoolLinks.merge_step h head1 head2 b) x =
+    if x =? head1 then b else if x =? b then PoolLinks.hprev h head1
+    else if x =? head2 then PoolLinks.hprev h b else PoolLinks.hprev h x.
+Proof. exact PoolLinksProofs.merge_step_prev. Qed.
+Print Assumptions C09_merge_step_prev.
+
+Theorem C09_merge_step_next : forall h head1 head2 b x, head1 <> head2 ->
+  PoolLinks.hnext (PoolLinks.merge_step h head1 head2 b) x =
+    if negb (PoolLinks.hprev h head1 =? 0) && (x =? PoolLinks.hprev h head1) then b
+    else if x =? b then head1
+    else if negb (PoolLinks.hprev h b =? 0) && (x =? PoolLinks.hprev h b) then head2
+    else PoolLinks.hnext h x.
+Proof. exact PoolLinksProofs.merge_step_next. Qed.
+Print Assumptions C09_merge_step_next.
+
+(* the pre-fix MergeFrom (second Gallina definition merge_from_prefix) orphans a buffer: witness pool1 = [1], pool2 = [2;3]
+   with head 3; after the merge the list reachable from the head is 1,3 and buffer 2 is lost. *)
+Theorem C09_mergefrom_prefix_refuted :
+  exists l1 head1 l2 head2 res b,
+    PoolLinks.list_of 20 (PoolLinks.heap_of_lists l1 l2) head1 = Some l1 /\
+    PoolLinks.list_of 20 (PoolLinks.heap_of_lists l1 l2) head2 = Some l2 /\
+    PoolLinksProofs.merged_list PoolLinks.merge_loop_prefix l1 head1 l2 head2 = Some (res, head1) /\
+    In b (l1 ++ l2) /\ ~ In b res.
+Proof. exact PoolLinksProofs.merge_prefix_refuted. Qed.
+Print Assumptions C09_mergefrom_prefix_refuted.
+
+(* abstract pool model, every history of Allocate / Deallocate / DeallocateIf / DeallocateAll / MergeFrom on two pools and
+   every choice of returned blocks: no block is live twice (in one pool or in both), a live block is never simultaneously
+   free, and each pool's GetAllocateCount equals the number of its live blocks. *)
+Theorem C09_model_no_block_twice_count_exact : forall ops,
+  let w := PoolModel.run PoolModel.empty ops in
+  NoDup (PoolModel.live (fst w) ++ PoolModel.live (snd w)) /\
+  (forall b, In b (PoolModel.live (fst w) ++ PoolModel.live (snd w)) -> ~ In b (PoolModel.spare (fst w) ++ PoolModel.spare (snd w))) /\
+  PoolModel.acount (fst w) = Z.of_nat (length (PoolModel.live (fst w))) /\
+  PoolModel.acount (snd w) = Z.of_nat (length (PoolModel.live (snd w))).
+Proof. exact PoolModel.no_block_twice. Qed.
+Print Assumptions C09_model_no_block_twice_count_exact.
+
+(* ... and the counter of a pool is 0 exactly when all of its blocks have been returned *)
+Theorem C09_model_count_zero_iff_all_returned : forall ops p,
+  let w := PoolModel.run PoolModel.empty ops in
+  PoolModel.acount (PoolModel.get w p) = 0 <-> PoolModel.live (PoolModel.get w p) = [].
+Proof. exact PoolModel.count_zero_iff_all_returned. Qed.
+Print Assumptions C09_model_count_zero_iff_all_returned.
